@@ -24,6 +24,8 @@ def run(c):
     if not c.coq_make():
         return
     c.coq_properties()
+    from decgen_tie import run_decgen
+    run_decgen(c, "C20")   # regenerated leaf logic (go/decgen) vs the proved golden coq/Gen/DecC20.v
     b = c.go_build("c20corr")
     if not b:
         return
